@@ -526,3 +526,251 @@ Definition c05_ex_pool : list const :=
 (* true ? [1, 1, ... n times] : 2 *)
 Definition c05_big_cond (n : Z) : expr :=
   ECond ann0 (EBool ann0 true) (EArray ann0 (repeat (EInt ann0 1) (Z.to_nat n))) (EInt ann0 2).
+
+(* ------------------------------------------------------------------ the Go-shaped assembler *)
+(* The compiler value `c *compiler` of compiler/compiler.go as far as the byte level uses it, and emit /
+   makeConstant / placeholder / patchJump / calcBackwardJump / encode as one Gallina function per Go function,
+   written the way the Go code works: an index MAP beside the pool, a locations MAP, placeholder bytes that
+   patchJump overwrites later.  The bodies of these Go functions are REGENERATED statement by statement
+   (gen/GenAssemble.v, DSL and interpreter BC/AsmRules.v); Bridge/BrAssemble.v proves every function below equal to
+   the interpretation of its regenerated body for all states and arguments, and BC/AsmDriveProofs.v proves that
+   driving an item list through them (drive, below) yields exactly asm / assemble_items above.
+   Integers are unbounded (positions and lengths stay far below 2^63); uint16(x) is x mod 65536.   None = panic. *)
+Record cstate := mkCS {
+  cs_bytecode : list Z;               (* c.bytecode *)
+  cs_constants : list const;          (* c.constants *)
+  cs_index : list (const * Z);        (* c.index: map[interface{}]uint16, in insertion order *)
+  cs_locations : list (Z * loc);      (* c.locations: map[int]file.Location, in insertion order *)
+  cs_nodes : list loc                 (* Location() of the nodes on the stack c.nodes, bottom first *)
+}.
+
+(* &compiler{index: make(...), locations: make(...)} *)
+Definition cs0 : cstate := mkCS [] [] [] [] [].
+
+Definition blen (s : cstate) : Z := Z.of_nat (List.length (cs_bytecode s)).
+
+(* reflect.TypeOf(i) is nil for the nil interface: .Kind() is a nil-pointer dereference *)
+Definition kind_panics (c : const) : bool := match c with CVal VNil => true | _ => false end.
+Definition const_slice_or_map (c : const) : bool := match c with CVal v => slice_or_map v | _ => false end.
+Definition const_float_zero (c : const) : bool := match c with CVal v => float_zero v | _ => false end.
+
+(* using i as a key of map[interface{}]...: runtime error "hash of unhashable type" *)
+Definition key_unhashable (c : const) : bool :=
+  match c with
+  | CVal v => match field_class v with KPanic => true | _ => false end
+  | _ => false
+  end.
+
+(* m[k] and m[k] = v on Go maps: keys compared with Go's == (const_go_eq: NaN and identity-compared values
+   never equal anything) *)
+Fixpoint index_get (m : list (const * Z)) (c : const) : option Z :=
+  match m with
+  | [] => None
+  | (d, k) :: r => if const_go_eq d c then Some k else index_get r c
+  end.
+
+Fixpoint index_set (m : list (const * Z)) (c : const) (p : Z) : list (const * Z) :=
+  match m with
+  | [] => [(c, p)]
+  | (d, k) :: r => if const_go_eq d c then (d, p) :: r else (d, k) :: index_set r c p
+  end.
+
+Fixpoint locs_set (m : list (Z * loc)) (q : Z) (l : loc) : list (Z * loc) :=
+  match m with
+  | [] => [(q, l)]
+  | (q', l') :: r => if q' =? q then (q', l) :: r else (q', l') :: locs_set r q l
+  end.
+
+(* binary.LittleEndian.PutUint16 into a fresh 2-byte slice: byte(v), byte(v >> 8) *)
+Definition go_encode (i : Z) : list Z := [i mod 256; (i / 256) mod 256].
+
+Definition go_placeholder : list Z := [255; 255].
+
+Definition set_bytecode (s : cstate) (b : list Z) : cstate :=
+  mkCS b (cs_constants s) (cs_index s) (cs_locations s) (cs_nodes s).
+
+Definition go_emit (s : cstate) (op : Z) (b : list Z) : Z * cstate :=
+  let bc1 := cs_bytecode s ++ [op] in
+  let current := Z.of_nat (List.length bc1) in
+  let l := match cs_nodes s with [] => noloc | _ => List.last (cs_nodes s) noloc end in
+  (current, mkCS (bc1 ++ b) (cs_constants s) (cs_index s) (locs_set (cs_locations s) (current - 1) l) (cs_nodes s)).
+
+Definition go_append_constant (s : cstate) (c : const) (hashable : bool) : option (list Z * cstate) :=
+  let cs' := cs_constants s ++ [c] in
+  let n := Z.of_nat (List.length cs') in
+  if max_uint16 <? n then None
+  else let p := (n - 1) mod 65536 in
+       Some (go_encode p,
+             mkCS (cs_bytecode s) cs' (if hashable then index_set (cs_index s) c p else cs_index s)
+                  (cs_locations s) (cs_nodes s)).
+
+Definition go_make_constant (s : cstate) (c : const) : option (list Z * cstate) :=
+  if kind_panics c then None
+  else if const_slice_or_map c || const_float_zero c then go_append_constant s c false
+  else if key_unhashable c then None
+  else match index_get (cs_index s) c with
+       | Some p => Some (go_encode p, s)
+       | None => go_append_constant s c true
+       end.
+
+(* l[k] = v; None = index out of range *)
+Fixpoint list_upd (l : list Z) (k : nat) (v : Z) : list Z :=
+  match l, k with
+  | [], _ => []
+  | _ :: r, O => v :: r
+  | x :: r, S k' => x :: list_upd r k' v
+  end.
+
+Definition store_byte (l : list Z) (k v : Z) : option (list Z) :=
+  if (0 <=? k) && (k <? Z.of_nat (List.length l)) then Some (list_upd l (Z.to_nat k) v) else None.
+
+Definition go_patch_jump (s : cstate) (placeholder : Z) : option cstate :=
+  let offset := blen s - 2 - placeholder in
+  if max_uint16 <? offset then None
+  else let b := go_encode (offset mod 65536) in
+       match store_byte (cs_bytecode s) placeholder (nth 0 b 0) with
+       | None => None
+       | Some bc1 =>
+           match store_byte bc1 (placeholder + 1) (nth 1 b 0) with
+           | None => None
+           | Some bc2 => Some (set_bytecode s bc2)
+           end
+       end.
+
+Definition go_calc_backward_jump (s : cstate) (to : Z) : option (list Z) :=
+  let offset := blen s + 1 + 2 - to in
+  if max_uint16 <? offset then None else Some (go_encode (offset mod 65536)).
+
+(* ---- driving an item list through the functions, the way the Go compiler calls them ---- *)
+(* outcome of running Go code: a value, a panic, or (for interpreted source only) a statement the interpreter
+   cannot give a meaning to *)
+Inductive gres (A : Type) : Type := GOk (a : A) | GPanic | GStuck.
+Arguments GOk {A} a. Arguments GPanic {A}. Arguments GStuck {A}.
+
+Definition gbind {A B : Type} (r : gres A) (k : A -> gres B) : gres B :=
+  match r with GOk a => k a | GPanic => GPanic | GStuck => GStuck end.
+
+Definition of_option {A : Type} (o : option A) : gres A := match o with Some a => GOk a | None => GPanic end.
+
+Record asm_funcs := mkFuncs {
+  f_emit : cstate -> Z -> list Z -> gres (Z * cstate);
+  f_make_constant : cstate -> const -> gres (list Z * cstate);
+  f_placeholder : cstate -> gres (list Z * cstate);
+  f_patch_jump : cstate -> Z -> gres cstate;
+  f_calc_backward_jump : cstate -> Z -> gres (list Z * cstate);
+  f_encode : cstate -> Z -> gres (list Z * cstate)
+}.
+
+Definition go_funcs : asm_funcs :=
+  mkFuncs (fun s op b => GOk (go_emit s op b))
+          (fun s c => of_option (go_make_constant s c))
+          (fun s => GOk (go_placeholder, s))
+          (fun s ph => of_option (go_patch_jump s ph))
+          (fun s to => match go_calc_backward_jump s to with Some b => GOk (b, s) | None => GPanic end)
+          (fun s i => GOk (go_encode i, s)).
+
+Definition is_backward (i : instr) : bool := match i with IJumpBackward _ => true | _ => false end.
+
+(* c.compile pushes the node before its method runs: emit sees its Location on top of c.nodes *)
+Definition with_node (s : cstate) (l : loc) : cstate :=
+  mkCS (cs_bytecode s) (cs_constants s) (cs_index s) (cs_locations s) [l].
+
+Section Drive.
+Variable F : asm_funcs.
+
+(* pending forward jumps: (what emit returned = position of the placeholder, position at which the Go compiler
+   calls patchJump = the VM's target of the jump) *)
+Definition pending := list (Z * Z).
+
+(* c.patchJump(ph) for every pending jump whose target is the current end of the bytecode *)
+Fixpoint fire (pend : pending) (s : cstate) : gres (cstate * pending) :=
+  match pend with
+  | [] => GOk (s, [])
+  | (ph, t) :: r =>
+      if t =? blen s then gbind (f_patch_jump F s ph) (fun s' => fire r s')
+      else gbind (fire r s) (fun sp => GOk (fst sp, (ph, t) :: snd sp))
+  end.
+
+(* one item = the calls the Go compiler makes for it:
+     AConst c                  c.makeConstant(c)
+     no operand                c.emit(op)
+     constant operand          c.emit(op, c.makeConstant(c)...)
+     result cast               c.emit(op, encode(k)...)
+     backward jump by off      c.emit(op, c.calcBackwardJump(to)...)  with to = the VM's target, pos + 3 - off
+     forward jump by off       ph := c.emit(op, c.placeholder()...)   and c.patchJump(ph) when len(c.bytecode)
+                               has reached the VM's target pos + 3 + off *)
+Definition drive_item (it : aitem) (s : cstate) (pend : pending) : gres (cstate * pending) :=
+  match it with
+  | AConst c => gbind (f_make_constant F s c) (fun r => GOk (snd r, pend))
+  | AIns i l =>
+      match opcode_of (iname i) with
+      | None => GPanic
+      | Some op =>
+          let s := with_node s l in
+          match ioperand i with
+          | NoArg => gbind (f_emit F s op []) (fun r => GOk (snd r, pend))
+          | ConstArg c =>
+              gbind (f_make_constant F s c) (fun r =>
+              gbind (f_emit F (snd r) op (fst r)) (fun r' => GOk (snd r', pend)))
+          | RawArg k =>
+              gbind (f_encode F s k) (fun r =>
+              gbind (f_emit F (snd r) op (fst r)) (fun r' => GOk (snd r', pend)))
+          | JumpArg off =>
+              if is_backward i then
+                gbind (f_calc_backward_jump F s (blen s + 3 - off)) (fun r =>
+                gbind (f_emit F (snd r) op (fst r)) (fun r' => GOk (snd r', pend)))
+              else
+                let target := blen s + 3 + off in
+                gbind (f_placeholder F s) (fun r =>
+                gbind (f_emit F (snd r) op (fst r)) (fun r' => GOk (snd r', (fst r', target) :: pend)))
+          | BadArg => GPanic
+          end
+      end
+  end.
+
+Fixpoint drive (its : list aitem) (s : cstate) (pend : pending) : gres (cstate * pending) :=
+  match fire pend s with
+  | GOk (s1, pend1) =>
+      match its with
+      | [] => GOk (s1, pend1)
+      | it :: r => gbind (drive_item it s1 pend1) (fun sp => drive r (fst sp) (snd sp))
+      end
+  | GPanic => GPanic
+  | GStuck => GStuck
+  end.
+
+End Drive.
+
+(* what Compile returns: the program, the error made from a recovered panic, or a panic that escapes *)
+Inductive cres := CProgram (p : program) | CError | CEscapes | CStuck.
+
+Definition cres_of_option (o : option program) : cres := match o with Some p => CProgram p | None => CError end.
+
+(* every forward jump of the list is patched: its target is the byte position at which an item starts, or the
+   end (decidable; true of everything the compiler produces, since jumps_ok holds of compiled code) *)
+Definition item_size (it : aitem) : Z :=
+  match it with
+  | AConst _ => 0
+  | AIns i _ => match ioperand i with NoArg => 1 | _ => 3 end
+  end.
+
+Fixpoint boundaries (its : list aitem) (pos : Z) : list Z :=
+  match its with
+  | [] => [pos]
+  | it :: r => pos :: boundaries r (pos + item_size it)
+  end.
+
+Fixpoint fwd_closed (its : list aitem) (pos : Z) : bool :=
+  match its with
+  | [] => true
+  | it :: r =>
+      let nxt := pos + item_size it in
+      match it with
+      | AIns i _ =>
+          match ioperand i with
+          | JumpArg off => is_backward i || existsb (Z.eqb (pos + 3 + off)) (boundaries r nxt)
+          | _ => true
+          end
+      | AConst _ => true
+      end && fwd_closed r nxt
+  end.
